@@ -33,6 +33,18 @@ CHECKS = [
      "technique": "bounded exhaustive enumeration of all frame histories over all binary images of small shapes, driven through the real labelimage merge path, against a 3-D connected-component reference",
      "text": "every sequence of F<=3 frames over all 64 binary 2x3 images (266 304 histories incl. empty frames), all 512^2 two-frame 3x3 histories, all 16^4 2x2 and 256^2 2x4 histories (thorough: F=4 on 2x3, F=3 on 2x4, F=5 on 2x2, 3x4 pairs) plus a catalogue of 40-frame structured histories; pixel intensities are distinct powers of two so a peak's summed intensity identifies its voxel set; every output row is matched to a 3-D component and all 19 reported properties compared.",
      "note": "level is exploration, not state-based: every history is executed in full on the implementation; oracle = own 3-D flood fill cross-checked with scipy.ndimage.label; text output precision (4 decimals) bounds the comparison tolerances"},
+    {"id": "C14", "engine": "E1-explore", "level": "exploration",
+     "technique": "bounded exhaustive enumeration of all masks / permutations / ordered pairs of labelled frames against dictionary-count and numpy references",
+     "text": "all 4095 non-empty masks over shapes up to 3x4 (thorough 4x4) x {uint16,uint32,float32} x cuts through from_data_mask/from_data_cut/tosparse_*/to_dense; sort()/sort_by() on all permutations of frames with <= 6 (7) pixels carrying two pixel arrays; 65534-wide/-tall shapes; all 255^2 ordered pairs of labelled frames over a 2x2 grid (labels absent,1,2,3; thorough all 4095^2 over 2x3; quick also a 1/64 slice of those) through overlaps_linear, overlaps_matrix, overlaps() and raw sparse_overlaps against a dict count.",
+     "note": "empty frames (None in the library) excluded; nlabel fixed at 3"},
+    {"id": "C16", "engine": "E1-explore", "level": "exploration",
+     "technique": "exhaustive enumeration over group elements, element products, orbit members and an hkl box",
+     "text": "for each of the ten named groups: every element (integer, det +1, inverse present, metric of two conventional conforming cells preserved), every ordered pair (closure), order; find_uniq_u on 6 generic UBIs x every element applied beforehand (canonical, idempotent, in orbit, same cell, right-handed) and refinegrains.makeuniq on the same; find_uniq_hkls on all 343 hkl in [-3,3]^3 x every element.",
+     "note": "conforming cells = conventional settings (hexagonal axes gamma=120 for hexagonal and trigonal); trace ties to 1e-9 are borderline"},
+    {"id": "C03", "engine": "E1-explore", "level": "exploration",
+     "technique": "bounded exhaustive enumeration over a cell grid x centrings x limits against brute-force box enumeration with independent centring rules",
+     "text": "quick: every cell of the grid a,b,c in {3,4,5} x alpha,beta,gamma in {60,75,90,100,120} with positive volume (about 3000 cells) plus 17 named cells, thorough: a,b,c in {2,3,5,8,13,30} x angles in {55,70,90,110,125}; x all 7 centrings x 2 (3) d* limits: hkl set, multiplicity one, d* = |B.hkl| to 1e-10, ascending; x 3 ring tolerances: rings ascending, partition, neighbours within tol, equal d* in one ring.",
+     "note": "oracle box |h| <= floor(|a| d*)+1 is rigorous; limits chosen incommensurate, reflections within 1e-9 of the limit are borderline"},
     # --- END CHECKS
 ]
 
